@@ -52,7 +52,7 @@ pub fn generate(profile: &str, seed: u64, n: usize, size: usize) -> Vec<History>
                 let mut a = gen_mapset(&mut rng, Coll::MapTree, size);
                 let mut b = gen_mapset(&mut rng, Coll::SetTree, size);
                 let mut c = gen_key(&mut rng, size);
-                let cap = CAPS[i % CAPS.len()];
+                let cap = if i % 2 == 0 { CAPS[(i / 2) % CAPS.len()] } else { pick_cap(&mut rng) };
                 a.params = vec![cap];
                 b.params = vec![cap];
                 c.params = vec![cap];
@@ -100,6 +100,63 @@ pub fn generate(profile: &str, seed: u64, n: usize, size: usize) -> Vec<History>
                 out.push(gen_seg_wide(&mut rng, size));
             }
         }
+        // large states: big fills, exact fills, clears of large collections, mass expiry, big hints
+        "big" => {
+            for i in 0..n {
+                let t = seed + i as u64;
+                let h = crate::big::gen_big_mapset(&mut rng, Coll::MapTree, size, t);
+                out.push(as_list(&h, Coll::MapList));
+                out.push(h);
+                let h = crate::big::gen_big_mapset(&mut rng, Coll::SetTree, size, t);
+                out.push(as_list(&h, Coll::SetList));
+                out.push(h);
+                let h = crate::big::gen_big_key(&mut rng, size, t);
+                let mut l = h.clone();
+                l.coll = Coll::KeyList;
+                out.push(l);
+                out.push(h);
+            }
+        }
+        "bigmap" => {
+            for i in 0..n {
+                let h = crate::big::gen_big_mapset(&mut rng, Coll::MapTree, size, seed + i as u64);
+                out.push(as_list(&h, Coll::MapList));
+                out.push(h);
+            }
+        }
+        "bigset" => {
+            for i in 0..n {
+                let h = crate::big::gen_big_mapset(&mut rng, Coll::SetTree, size, seed + i as u64);
+                out.push(as_list(&h, Coll::SetList));
+                out.push(h);
+            }
+        }
+        "bigkey" => {
+            for i in 0..n {
+                let h = crate::big::gen_big_key(&mut rng, size, seed + i as u64);
+                let mut l = h.clone();
+                l.coll = Coll::KeyList;
+                out.push(l);
+                out.push(h);
+            }
+        }
+        "bigseg" => {
+            for i in 0..n {
+                out.push(crate::big::gen_big_seg(&mut rng, size, seed + i as u64));
+            }
+        }
+        "bigtwin" => {
+            for i in 0..n {
+                crate::big::gen_big_twins(&mut rng, size, seed + i as u64, &mut out);
+            }
+        }
+        "biginject" => {
+            // the kind of large state cycles with the seed: batches of three with consecutive seeds
+            // cover all six
+            for i in 0..n {
+                crate::big::gen_big_inject(&mut rng, size, 3 * seed + i as u64, &mut out);
+            }
+        }
         p => panic!("unknown profile {p}"),
     }
     out
@@ -143,7 +200,7 @@ fn gen_export(rng: &mut Rng, size: usize) -> Vec<History> {
             }
             ops.push(Op::K(KOp::Export(0)));
             ops.push(Op::K(KOp::Export(5)));
-            out.push(History { coll, params: vec![*rng.pick(&CAPS)], ops, twin: None, inject: None });
+            out.push(History { coll, params: vec![pick_cap(rng)], ops, twin: None, inject: None });
         }
     }
     out
@@ -202,7 +259,7 @@ fn gen_twins(rng: &mut Rng, size: usize, out: &mut Vec<History>) {
     b.ops.extend(suf.ops.iter().cloned());
     a.ops.extend(b.ops.iter().cloned());
     if coll != Coll::Seg {
-        b.params = vec![*rng.pick(&CAPS)];
+        b.params = vec![pick_cap(rng)];
     }
     let idx = out.len();
     b.twin = Some((idx, off));
@@ -243,6 +300,18 @@ fn as_list(h: &History, coll: Coll) -> History {
 }
 
 const CAPS: [i64; 7] = [0, 1, 8, 9, 20, 64, 300];
+
+/// capacity hint: half from the fixed set, a quarter small, a quarter around a power of two
+fn pick_cap(rng: &mut Rng) -> i64 {
+    match rng.below(4) {
+        0 | 1 => *rng.pick(&CAPS),
+        2 => rng.range(0, 48),
+        _ => {
+            let k = rng.range(1, 12);
+            ((1i64 << k) + rng.range(-1, 1)).max(0)
+        }
+    }
+}
 
 fn probe_key(rng: &mut Rng, universe: i64) -> i32 {
     rng.range(-1, universe) as i32
@@ -346,7 +415,7 @@ fn gen_mapset(rng: &mut Rng, coll: Coll, size: usize) -> History {
             ops.push(Op::M(MOp::Get(k)));
         }
     }
-    History { coll, params: vec![*rng.pick(&CAPS)], ops, twin: None, inject: None }
+    History { coll, params: vec![pick_cap(rng)], ops, twin: None, inject: None }
 }
 
 fn gen_key(rng: &mut Rng, size: usize) -> History {
@@ -416,7 +485,7 @@ fn gen_key(rng: &mut Rng, size: usize) -> History {
             ops.push(Op::K(KOp::Export(t)));
         }
     }
-    History { coll: Coll::KeyTree, params: vec![*rng.pick(&CAPS)], ops, twin: None, inject: None }
+    History { coll: Coll::KeyTree, params: vec![pick_cap(rng)], ops, twin: None, inject: None }
 }
 
 const DOMAINS: [(i64, i64); 12] = [
@@ -582,7 +651,7 @@ pub fn gen_key_edge(rng: &mut Rng, size: usize) -> History {
             ops.push(Op::K(KOp::Export(te)));
         }
     }
-    History { coll: Coll::KeyTree, params: vec![*rng.pick(&CAPS)], ops, twin: None, inject: None }
+    History { coll: Coll::KeyTree, params: vec![pick_cap(rng)], ops, twin: None, inject: None }
 }
 
 const WIDE_DOMAINS: [(i64, i64); 8] = [
@@ -600,7 +669,19 @@ const WIDE_DOMAINS: [(i64, i64); 8] = [
 /// many copies per bucket list and bursts that expire together
 pub fn gen_seg_wide(rng: &mut Rng, size: usize) -> History {
     let nops = if size == 0 { 60 } else { size };
-    let (lo, hi) = *rng.pick(&WIDE_DOMAINS);
+    let (lo, hi) = if rng.chance(50) {
+        *rng.pick(&WIDE_DOMAINS)
+    } else {
+        // 2^k + d points for every k up to 61: the lengths around which the bucket width changes
+        let k = rng.range(33, 61) as u32;
+        let len: i128 = (1i128 << k) + rng.range(-1, 3) as i128;
+        let lo: i128 = match rng.below(3) {
+            0 => 0,
+            1 => -(len / 2),
+            _ => -(rng.next() as i128 % (1i128 << 61)),
+        };
+        (lo as i64, (lo + len - 1) as i64)
+    };
     let len = (hi as i128 - lo as i128 + 1) as i128;
     let mut p = 0u32;
     while (1i128 << p) < len {
